@@ -20,6 +20,9 @@ Hypothesis Hcond : forall c a b, P c -> P a -> P b -> P (ECond c a b).
 Hypothesis Harr : forall es, Forall P es -> P (EArr es).
 Hypothesis Hat : forall a i, P a -> P i -> P (EAt a i).
 Hypothesis Hlen : forall a, P a -> P (ELen a).
+Hypothesis Hstr1 : forall o a, P a -> P (EStr1 o a).
+Hypothesis Hstr2 : forall o a b, P a -> P b -> P (EStr2 o a b).
+Hypothesis Hsubstr : forall a b c, P a -> P b -> P c -> P (ESubstr a b c).
 Fixpoint expr_ind2 (e : expr) : P e :=
   match e with
   | ENum z => Hnum z | EBool b => Hbool b | EStr s => Hstr s | EVar x => Hvar x
@@ -34,6 +37,9 @@ Fixpoint expr_ind2 (e : expr) : P e :=
                   match l with [] => Forall_nil P | a :: r => Forall_cons a (expr_ind2 a) (go r) end) es)
   | EAt a i => Hat a i (expr_ind2 a) (expr_ind2 i)
   | ELen a => Hlen a (expr_ind2 a)
+  | EStr1 o a => Hstr1 o a (expr_ind2 a)
+  | EStr2 o a b => Hstr2 o a b (expr_ind2 a) (expr_ind2 b)
+  | ESubstr a b c => Hsubstr a b c (expr_ind2 a) (expr_ind2 b) (expr_ind2 c)
   end.
 End ExprInd.
 
@@ -113,7 +119,8 @@ Hypothesis Hfe : forall e0 e0' L, fe e0 = Some e0' -> Q L -> ty_expr F G L e0' =
 
 Lemma at_expr_ill : forall e pos e' L, at_expr pos fe e = Some e' -> Q L -> ty_expr F G L e' = None.
 Proof.
-  induction e as [z|b0|s0|x|o a IHa|o a b IHa IHb|f args IHargs|c a b IHc IHa IHb|es IHes|a i IHa IHi|a IHa] using expr_ind2;
+  induction e as [z|b0|s0|x|o a IHa|o a b IHa IHb|f args IHargs|c a b IHc IHa IHb|es IHes|a i IHa IHi|a IHa
+                  |so a IHa|so a b IHa IHb|a b c IHa IHb IHc] using expr_ind2;
     intros pos e' L Hat HQL; (destruct pos as [|k pos']; [exact (Hfe _ _ _ Hat HQL)|]);
     simpl in Hat; try discriminate Hat.
   - (* un *)
@@ -159,6 +166,19 @@ Proof.
   - (* array_length *)
     destruct k; [|discriminate]. apply option_map_some in Hat. destruct Hat as [a' [Ha ->]].
     simpl. rewrite (IHa _ _ _ Ha HQL). reflexivity.
+  - (* unary string builtin *)
+    destruct k; [|discriminate]. apply option_map_some in Hat. destruct Hat as [a' [Ha ->]].
+    simpl. rewrite (IHa _ _ _ Ha HQL). reflexivity.
+  - (* binary string builtin *)
+    destruct k as [|[|k]]; try discriminate; apply option_map_some in Hat; destruct Hat as [a' [Ha ->]]; simpl.
+    + rewrite (IHa _ _ _ Ha HQL). reflexivity.
+    + rewrite (IHb _ _ _ Ha HQL). destruct (ty_expr F G L a); reflexivity.
+  - (* str_substring *)
+    destruct k as [|[|[|k]]]; try discriminate; apply option_map_some in Hat; destruct Hat as [a' [Ha ->]]; simpl.
+    + rewrite (IHa _ _ _ Ha HQL). reflexivity.
+    + rewrite (IHb _ _ _ Ha HQL). destruct (ty_expr F G L a) as [[| | | |]|]; reflexivity.
+    + rewrite (IHc _ _ _ Ha HQL). destruct (ty_expr F G L a) as [[| | | |]|]; try reflexivity.
+      destruct (ty_expr F G L b) as [[| | | |]|]; reflexivity.
 Qed.
 
 Variable ret : ty.
@@ -307,6 +327,23 @@ Proof.
   - (* array_length *)
     intros H; injection H as <-. simpl.
     destruct (wrong_lit_ty F G L TArr k) as [t' [E N]]. rewrite E. destruct t'; try reflexivity. contradiction.
+  - (* str_length / int_to_string *)
+    destruct o; intros H; injection H as <-; simpl.
+    + destruct (wrong_lit_ty F G L TStr k) as [t' [E N]]. rewrite E. destruct t'; try reflexivity. contradiction.
+    + destruct (wrong_lit_ty F G L TInt k) as [t' [E N]]. rewrite E. destruct t'; try reflexivity. contradiction.
+  - (* binary string builtin *)
+    intros H; injection H as <-. destruct (N.odd arg); simpl.
+    + destruct (ty_expr F G L e0_1) as [ta|]; [|reflexivity].
+      destruct o; cbv iota;
+        match goal with |- context [wrong_lit ?T k] => destruct (wrong_lit_ty F G L T k) as [t' [E N]] end;
+        rewrite E; destruct ta, t'; try reflexivity; contradiction.
+    + destruct (wrong_lit_ty F G L TStr k) as [t' [E N]]. rewrite E.
+      destruct (ty_expr F G L e0_2) as [tb|]; [|reflexivity]. destruct o, t', tb; try reflexivity; contradiction.
+  - (* str_substring *)
+    intros H; injection H as <-. destruct (N.odd arg); simpl.
+    + destruct (ty_expr F G L e0_1) as [[| | | |]|]; try reflexivity.
+      destruct (wrong_lit_ty F G L TInt k) as [t' [E N]]. rewrite E. destruct t'; try reflexivity. contradiction.
+    + destruct (wrong_lit_ty F G L TStr k) as [t' [E N]]. rewrite E. destruct t'; try reflexivity. contradiction.
 Qed.
 
 Lemma rw_argtype_ill F G arg e0 e0' L : rw_argtype F arg e0 = Some e0' -> ty_expr F G L e0' = None.
